@@ -157,6 +157,7 @@ fn tower_layer(ctx: &mut Ctx) {
             k.cmp("Fp::fp_inv", "", guard(|| e_fp(&la.fp_inv())), &r9::f12inv(&ea).unwrap(), inp);
         }
         if i % 8 == 0 {
+            let e = if i % 16 == 0 { sparse_scalar(&mut prng, 1 + (i / 16) % 14) } else { e };
             let le = r9::to_limbs(&e);
             let mut want = r9::f12zero();
             want[0] = a.modpow(&e, &pr.p);
@@ -311,10 +312,14 @@ fn tower_layer(ctx: &mut Ctx) {
                 let l2 = r9::f12mul(&e_f2(&lw[2]), &mono(3));
                 let line = r9::f12add(&r9::f12add(&l0, &l1), &l2);
                 k.cmp("Fp12::fp_line_mul", &cls, guard(|| e_f12(&hk::fp12_line_mul(&b, &lw))), &r9::f12mul(&eb, &line), inp);
-                let e = match mask % 5 {
+                let e = match (mask / 64) % 8 {
                     0 => BigUint::zero(),
                     1 => BigUint::one(),
                     2 => &pr.n - 1u32,
+                    3 | 4 | 5 => {
+                        k.ctx.class("pow_sparse_exponent");
+                        sparse_scalar(&mut prng, 1 + (mask as u64 / 512) % 14)
+                    }
                     _ => rand_scalar(&mut prng, &pr.n),
                 };
                 let le = limbs(&e);
@@ -380,6 +385,7 @@ fn modn_layer(ctx: &mut Ctx) {
             if !a.is_zero() {
                 chk(ctx, "mod_n_inv", guard(|| gm_sm9::fields::mod_n_inv(&la)), a.modinv(n).unwrap());
             }
+            let e = if i % 32 == 0 { sparse_scalar(&mut prng, 1 + (i / 32) % 14) } else { e };
             let le = r9::to_limbs(&e);
             chk(ctx, "mod_n_pow", guard(|| gm_sm9::fields::mod_n_pow(&la, &le)), a.modpow(&e, n));
         }
@@ -562,7 +568,7 @@ fn group_layer(ctx: &mut Ctx) {
             0 => vec![("k=0", BigUint::zero()), ("k=1", BigUint::one()), ("k=2", BigUint::from(2u32))],
             1 => vec![("k=N-1", &pr.n - 1u32), ("k=N", pr.n.clone()), ("k=N+1", &pr.n + 1u32)],
             2 => vec![("k=N+small", &pr.n + BigUint::from(1 + p.below(100))), ("k=2^256-1", two256m1.clone())],
-            3 => vec![("k=single_digit", BigUint::from(1 + p.below(31)) << (p.below(250) as usize))],
+            3 => vec![("k=single_digit", BigUint::from(1 + p.below(31)) << (p.below(250) as usize)), ("k=sparse_limbs", sparse_scalar(&mut p, 1 + (i / 6) % 14))],
             _ => vec![("k=random", r9::from_b(&p.bytes(32)))],
         };
         // ---------- G1
@@ -614,6 +620,18 @@ fn group_layer(ctx: &mut Ctx) {
             for (got, want, what) in eqs {
                 if got != want {
                     ctx.violation(&format!("G1::point_equals:{}:{}", what.replace(' ', "_"), got), w.clone());
+                }
+            }
+            // two representations of the point at infinity are the same point; infinity equals no finite point
+            ctx.eval();
+            ctx.class("G1::infinity_equals_infinity");
+            let inf_a = Point::zero();
+            let inf_b = Point { x: lp.x, y: lq.y, z: [0; 4] };
+            let inf_c = lp.point_sub(&lp2);
+            let inf_d = Point::zero().point_neg();
+            for (nm, a, b, want) in [("canonical_vs_arbitrary", &inf_a, &inf_b, true), ("canonical_vs_computed", &inf_a, &inf_c, true), ("canonical_vs_negated", &inf_a, &inf_d, true), ("computed_vs_arbitrary", &inf_c, &inf_b, true), ("infinity_vs_finite", &inf_b, &lp, false), ("finite_vs_infinity", &lp, &inf_c, false)] {
+                if a.point_equals(b) != want {
+                    ctx.violation(&format!("G1::point_equals:{}:{}", nm, !want), w.clone());
                 }
             }
             ctx.eval();
@@ -731,7 +749,7 @@ pub fn run(ctx: &mut Ctx) {
         "Fp12::fp_mul", "Fp12::fp_sqr", "Fp12::fp_inv", "Fp12::frobenius^1", "Fp12::frobenius^2", "Fp12::frobenius^3", "Fp12::frobenius^6", "Fp12::fp_line_mul", "Fp12::pow", "Fp12::final_exponent", "fp12_zero_subset", "fp12_c2_zero_branch",
         "mod_n_add", "mod_n_sub", "mod_n_mul", "mod_n_inv", "mod_n_pow", "booth_w5", "booth_w7", "booth_recomposition", "table_entry", "table_scalar", "table_scalar_negated",
         "G1::point_add", "G1::point_double", "G1::point_mul", "G1::g_mul", "G1::point_equals", "G1::is_on_curve", "G2::point_add", "G2::twist_point_add_full", "G2::point_double", "G2::point_mul", "G2::g_mul", "G2::point_equals", "G2::point_pi1",
-        "P_eq_Q_diff_Z", "P_eq_negQ_diff_Z", "P_ne_Q_rhs_Z!=1", "consecutive_negated_base", "consecutive_same_point_other_Z", "infinity_arbitrary_XY", "k=0", "k=N", "k=N+1", "k=2^256-1", "k=random",
+        "P_eq_Q_diff_Z", "P_eq_negQ_diff_Z", "P_ne_Q_rhs_Z!=1", "consecutive_negated_base", "consecutive_same_point_other_Z", "infinity_arbitrary_XY", "k=0", "k=N", "k=N+1", "k=2^256-1", "k=random", "k=sparse_limbs", "pow_sparse_exponent", "G1::infinity_equals_infinity",
     ]);
     tower_layer(ctx);
     modn_layer(ctx);
